@@ -454,13 +454,25 @@ func genRequest(rt *rapid.T, c *genCtx) lreq {
 		addH("X-Amz-Content-Sha256", "STREAMING-AWS4-HMAC-SHA256-PAYLOAD")
 		addH("X-Amz-Decoded-Content-Length", c.intVal(rt, []string{fmt.Sprint(len(payload))}))
 		if c.hostile(rt) && len(l.Body) > 1 {
-			switch rapid.IntRange(0, 2).Draw(rt, "chmut") {
+			switch rapid.IntRange(0, 3).Draw(rt, "chmut") {
 			case 0:
 				l.Body = l.Body[:rapid.IntRange(0, len(l.Body)-1).Draw(rt, "chcut")]
 			case 1:
 				i := rapid.IntRange(0, len(l.Body)-1).Draw(rt, "chflip")
 				l.Body = append([]byte(nil), l.Body...)
 				l.Body[i] ^= 0x55
+			case 2:
+				// an absurd size field on the first or on an additional leading chunk
+				sz := rapid.SampledFrom([]string{"-1", "-5", "-7fffffffffffffff", "ffffffffffffffff", "7fffffffffffffff", "10000000000000000", "", "zz", "+5", " 5", "0x5", "-0", "00000000000000000005"}).Draw(rt, "chsz")
+				rest := l.Body
+				if rapid.Bool().Draw(rt, "chreplace") {
+					if j := bytes.IndexByte(rest, ';'); j >= 0 {
+						rest = rest[j:]
+						l.Body = append([]byte(sz), rest...)
+						break
+					}
+				}
+				l.Body = append([]byte(sz+";chunk-signature="+oracle.Sig+"\r\nhello\r\n"), rest...)
 			}
 		}
 	case "deleteObject":
